@@ -355,15 +355,17 @@ structure Ext (s s' : Store) : Prop where
   hidden : s'.hidden = s.hidden
   defaultKind : s'.defaultKind = s.defaultKind
   extraSize : s'.extraSize = s.extraSize
+  extraKeys : s'.extraKeys = s.extraKeys
   index : ∃ extra, s'.index = s.index ++ extra
   dtypes : ∀ name ser, s.get name = some ser → ∃ ser', s'.get name = some ser' ∧ ser'.dtype = ser.dtype
 
 theorem Ext.refl (s : Store) : Ext s s :=
-  ⟨rfl, rfl, rfl, rfl, rfl, rfl, ⟨[], by simp⟩, fun _ ser h => ⟨ser, h, rfl⟩⟩
+  ⟨rfl, rfl, rfl, rfl, rfl, rfl, rfl, ⟨[], by simp⟩, fun _ ser h => ⟨ser, h, rfl⟩⟩
 
 theorem Ext.trans {a b c : Store} (h1 : Ext a b) (h2 : Ext b c) : Ext a c := by
   refine ⟨h2.span.trans h1.span, h2.spanKind.trans h1.spanKind, h2.getLoc.trans h1.getLoc,
-    h2.hidden.trans h1.hidden, h2.defaultKind.trans h1.defaultKind, h2.extraSize.trans h1.extraSize, ?_, ?_⟩
+    h2.hidden.trans h1.hidden, h2.defaultKind.trans h1.defaultKind, h2.extraSize.trans h1.extraSize,
+    h2.extraKeys.trans h1.extraKeys, ?_, ?_⟩
   · obtain ⟨e1, he1⟩ := h1.index
     obtain ⟨e2, he2⟩ := h2.index
     exact ⟨e1 ++ e2, by rw [he2, he1, List.append_assoc]⟩
@@ -377,7 +379,7 @@ theorem Ext.n {s s' : Store} (h : Ext s s') : s'.n = s.n := by simp [Store.n, h.
 /-- Replacing the series of an existing variable by one of the same dtype. -/
 theorem Ext.put {s : Store} {name : Name} {ser0 ser : Series} (hg : s.get name = some ser0)
     (hd : ser.dtype = ser0.dtype) : Ext s (s.put name ser) := by
-  refine ⟨rfl, rfl, rfl, rfl, rfl, rfl, ⟨[], by simp⟩, ?_⟩
+  refine ⟨rfl, rfl, rfl, rfl, rfl, rfl, rfl, ⟨[], by simp⟩, ?_⟩
   intro other ser1 h1
   by_cases ho : other = name
   · subst ho
@@ -388,7 +390,7 @@ theorem Ext.put {s : Store} {name : Name} {ser0 ser : Series} (hg : s.get name =
 
 theorem Ext.attrs (s : Store) (attrs : List Name) (strict : Bool) :
     Ext s { s with attrs := attrs, strict := strict } :=
-  ⟨rfl, rfl, rfl, rfl, rfl, rfl, ⟨[], by simp [Store.index]⟩, fun _ ser h => ⟨ser, h, rfl⟩⟩
+  ⟨rfl, rfl, rfl, rfl, rfl, rfl, rfl, ⟨[], by simp [Store.index]⟩, fun _ ser h => ⟨ser, h, rfl⟩⟩
 
 theorem lookup_append_of_some {vars extra : List (Name × Series)} {name : Name} {ser : Series}
     (h : vars.lookup name = some ser) : (vars ++ extra).lookup name = some ser := by
@@ -403,7 +405,7 @@ theorem lookup_append_of_some {vars extra : List (Name × Series)} {name : Name}
 
 theorem Ext.addVar (s : Store) (name : Name) (ser : Series) :
     Ext s { s with vars := s.vars ++ [(name, ser)] } := by
-  refine ⟨rfl, rfl, rfl, rfl, rfl, rfl, ⟨[name], by simp [Store.index]⟩, ?_⟩
+  refine ⟨rfl, rfl, rfl, rfl, rfl, rfl, rfl, ⟨[name], by simp [Store.index]⟩, ?_⟩
   intro other ser1 h1
   exact ⟨ser1, lookup_append_of_some h1, rfl⟩
 
